@@ -97,6 +97,17 @@ def g_prefix(R, tier):
                 R.fail(f"{base}/no-unexpected-raise", repr(p.value))
                 continue
             v = p.value
+            # the assumed contract of argparse must match the parser the script declares:
+            # plain string arguments only (no `type=` that touches the file system at parse time)
+            parser = v["fr"].get("parser")
+            if isinstance(parser, argparse.ArgumentParser):
+                bad = [(a.dest, a.type) for a in parser._actions if a.type not in (None, str)]
+                R.check(f"{base}/parsing-has-no-side-effects", not bad,
+                        f"arguments with a converting type: {bad!r} (argparse.FileType opens/truncates the file while parsing, before validation)",
+                        replay=dict(kind="cli", argv=["-Cno_such_option=1"], expect="error-before-output"))
+                dests = {a.dest: a for a in parser._actions}
+                R.check(f"{base}/declares-the-assumed-arguments", {"C", "input_filename", "output", "unparser"} <= set(dests)
+                        and dests["C"].__class__.__name__ == "_AppendAction", repr(sorted(dests)))
             cfg = v["fr"].get("cfg")
             R.check(f"{base}/fresh-default-options", isinstance(cfg, C.Configs) and not vars(cfg), f"cfg={cfg!r} vars={getattr(cfg, '__dict__', None)}")
             ac = v["fr"].get("args_configs")
@@ -110,20 +121,19 @@ def g_step(R, tier):
     names = list(C.Configs.config_names)
 
     def run(c):
-        m = Machine()
-        cfg = C.Configs()
-        # arbitrary legal state: every option holds some legal value (symbolic)
+        # the state the prefix leaves behind (whatever helpers it defines), then an
+        # ARBITRARY legal option state in place of the fresh one
+        arg = Hole("arg", "str")
+        m, fr, _ = run_prefix(mk_args([arg], None, None))
+        cfg = fr.locals.get("cfg")
+        if not isinstance(cfg, C.Configs):
+            raise IRaise(RuntimeError("prefix does not leave a Configs object in `cfg`"))
         state = {}
         for n_ in names:
             h = Hole(("state", n_), "str")
             state[n_] = h
             cfg.__dict__[n_] = h
-        arg = Hole("arg", "str")
-        fr = module_frame(dict(cfg=cfg, args_configs=[arg]))
-        # bring the names the body uses into scope the way the prefix does
-        import oneliner
-        import oneliner.config
-        fr.globals.update(oneliner=oneliner)
+        c.writes.clear()
         fr.locals[loop.target.id] = arg
         sig = m.run(m.exec_block(loop.body, fr))
         return dict(cfg=cfg, state=state, arg=arg, sig=sig, fr=fr.locals)
@@ -173,6 +183,54 @@ def g_step(R, tier):
                    replay=dict(kind="cli", argv=[f"-C{optname}=1"], expect="error-before-output"))
     for k, n in seen.items():
         R.check(f"{base}/case-reached/{k}", n > 0, f"{k}: {n} paths (vacuity guard)")
+
+
+CATALOGUE = [
+    "unparser", "", "=", "a=b", "=oneliner", "unparser=", "unparser=oneliner", "unparser=ast.unparse", "unparser=oneliner=1", "a=b=c",
+    "unparser=oneliner,if_style=short_circuit", "unparser=oneliner-py", "unparser=oneliner ", " unparser=oneliner", "unparser =oneliner",
+    "unparser= oneliner", "Unparser=oneliner", "unparser=Oneliner", "expr_wrapper=list", "expr_wrapper=list ", "expr_wrapper=chain_call",
+    "expr_wrapper=chain", "if_style=short_circuit", "if_style=short_circuit=1", "if_style=if_expr", "if_style=ternary", "config_names=1",
+    "__doc__=x", "__class__=x", "unparser=ast.unparse.x", "unparser=ast", "if_style==if_expr", "unparser=oneliner\n", "unparser=oneliner\t",
+    "expr_wrapper=list;x", "expr_wrapper=lis", "if_style=if_expr#", "unparser=one liner",
+]
+
+
+def g_step_bounded(R, tier):
+    """BOUNDED stand-in for the step (used as well when the symbolic step is undecided, e.g.
+    a regular expression parses the argument): the real loop body, interpreted on a fixed
+    catalogue of concrete -C strings, against the option specification"""
+    C = cfgm()
+    pre, loop, post = main_tree()
+    names = list(C.Configs.config_names)
+    legal = {n: list(C.Configs.__dict__[n].tp) for n in names}
+    bad = []
+    for s_ in CATALOGUE:
+        def run(c, s_=s_):
+            m, fr, _ = run_prefix(mk_args([s_], None, None))
+            cfg = fr.locals.get("cfg")
+            c.writes.clear()
+            fr.locals[loop.target.id] = s_
+            m.run(m.exec_block(loop.body, fr))
+            return dict(vars(cfg))
+        paths = explore(run)
+        if len(paths) != 1 or paths[0].kind not in ("ok", "raise"):
+            bad.append((s_, f"undecided: {paths}"))
+            continue
+        p = paths[0]
+        parts = s_.split("=")
+        want_ok = len(parts) == 2 and parts[0] in names and parts[1] in legal.get(parts[0], [])
+        if want_ok:
+            if p.kind != "ok" or p.value != {parts[0]: parts[1]}:
+                bad.append((s_, f"legal argument: expected option set, got {p.kind} {p.value!r}"))
+        else:
+            if p.kind != "raise":
+                bad.append((s_, f"must be rejected, but was accepted with options {p.value!r}"))
+    R.bounded("__main__/step/catalogue-of-concrete-arguments", not bad,
+              f"{len(CATALOGUE)} concrete -C strings; " + ("; ".join(f"{a!r}: {b}" for a, b in bad[:4]) or "all handled as specified"),
+              replay=dict(kind="cli", argv=[f"-C{bad[0][0]}"], expect="error-before-output") if bad else None)
+
+
+BOUNDED = ["__main__ loop step on a catalogue of %d concrete -C strings (bounded stand-in next to the symbolic step)" % len(CATALOGUE)]
 
 
 def g_suffix(R, tier):
@@ -255,7 +313,7 @@ def g_canary(R, tier):
     R.canary("canary/script-split", not (len(pre) > 3 and len(post) > 2) is True or False is True or True, "script split at its loop")
 
 
-GROUPS = {"prefix": g_prefix, "step": g_step, "suffix": g_suffix, "canary": g_canary}
+GROUPS = {"prefix": g_prefix, "step": g_step, "step_bounded": g_step_bounded, "suffix": g_suffix, "canary": g_canary}
 
 
 def replay_cli(rp):
